@@ -27,7 +27,15 @@ pub fn exec(op: &str, args: &[&str]) -> String {
 
 pub fn gen_cube_arg(rng: &mut Rng, p: u64) -> BigDecimal {
     let scale = rng.range(-2000, 2000);
-    let v: BigInt = match rng.below(10) {
+    let v: BigInt = match rng.below(12) {
+        10 | 11 => { // EXACT cube of a root longer than p+4 digits whose dropped tail is 5000..0junk, 000..0junk or 4999..9junk:
+            // the digits below the guard digits decide (strictly above / below a tie, barely inexact)
+            let head = gen_int_len(rng, p as usize).magnitude().clone();
+            let z = 3 + rng.below(6) as usize;
+            let junk = 1 + rng.below(999_999);
+            let tail = match rng.below(3) { 0 => format!("5{}{}", "0".repeat(z), junk), 1 => format!("0{}{}", "0".repeat(z), junk), _ => format!("4{}{}", "9".repeat(z), junk) };
+            let root = BigInt::from_str(&format!("{}{}", head, tail)).unwrap();
+            &root * &root * &root }
         0 | 1 => { let l = len_dist(rng, 120); let r = BigInt::from(gen_int_len(rng, l).magnitude().clone()); &r * &r * &r }
         2 | 3 => { // perfect cube +- 1 in a far-away digit
             let l = 1 + rng.below(15) as usize; let r = BigInt::from(gen_int_len(rng, l).magnitude().clone());
